@@ -422,11 +422,13 @@ class ParserSessionProp(object):
         kind = rng.choice(['callback', 'malformed'])
         if kind == 'callback':
             op['fault'] = {'kind': 'F4', 'which': rng.choice(['binary', 'binary', 'unary']),
-                           'at': rng.choice([1, 1, 2, 3, 5, 8, 13, 30])}
+                           'at': rng.choice([1, 1, 2, 3, 5, 8, 13, 30]),
+                           'mode': rng.choice(['raise', 'raise', 'malformed_tail'])}
         else:
             op['fault'] = {'kind': 'F7',
                            'what': rng.choice(['tag_width', 'dep_shape', 'length_mismatch', 'rows',
-                                               'scores_not_a_list', 'doc_not_nested', 'categories_longer']),
+                                               'scores_not_a_list', 'doc_not_nested', 'categories_longer',
+                                               'dep_extra_axis', 'tag_extra_axis', 'dep_vector']),
                            'pos': rng.randrange(len(op['batch']))}
             op.pop('single', None)
 
@@ -438,9 +440,9 @@ class ParserSessionProp(object):
         counting = None
         if fault.get('kind') == 'F4':
             if fault['which'] == 'binary':
-                kwargs['binary'] = grammars.FaultyCallable(world.binary, fault['at'])
+                kwargs['binary'] = grammars.FaultyCallable(world.binary, fault['at'], mode=fault.get('mode', 'raise'))
             else:
-                kwargs['unary'] = grammars.FaultyCallable(world.unary, fault['at'])
+                kwargs['unary'] = grammars.FaultyCallable(world.unary, fault['at'], mode=fault.get('mode', 'raise'))
         elif fault.get('kind') == 'F7':
             counting = (grammars.CountingCallable(world.binary), grammars.CountingCallable(world.unary))
             kwargs['binary'], kwargs['unary'] = counting
@@ -456,6 +458,14 @@ class ParserSessionProp(object):
                 scores[pos] = ScoringResult(bad, world.dep[sid])
             elif fault['what'] == 'dep_shape':
                 scores[pos] = ScoringResult(world.tag[sid], numpy.ascontiguousarray(world.dep[sid][:, :n]))
+            elif fault['what'] == 'dep_extra_axis':
+                # the labelled-arc tensor (n, n+1, L) where the (n, n+1) arc matrix belongs: right leading axes, wrong rank
+                scores[pos] = ScoringResult(world.tag[sid], numpy.ascontiguousarray(
+                    numpy.repeat(world.dep[sid][:, :, None], 3, axis=2)))
+            elif fault['what'] == 'tag_extra_axis':
+                scores[pos] = ScoringResult(numpy.ascontiguousarray(world.tag[sid][:, :, None]), world.dep[sid])
+            elif fault['what'] == 'dep_vector':
+                scores[pos] = ScoringResult(world.tag[sid], numpy.ascontiguousarray(world.dep[sid][:, 0]))
             elif fault['what'] == 'length_mismatch':
                 if len(scores) > 1:
                     scores = scores[:-1]
